@@ -66,6 +66,9 @@ def evaluate(scn, res):
             elif op[0] == "K":
                 for j, (lines, how) in enumerate(op[1]):
                     all_chunks[(tid, i, j)] = (plain_text(scn, lines, how), True)
+            elif op[0] == "N":
+                for j, (lines, how) in enumerate(op[1:4]):
+                    all_chunks[(tid, i, j)] = (plain_text(scn, lines, how), True)
     for (tid, i, j), (chunk, captured) in all_chunks.items():
         hits = [k for k, (wt, text) in enumerate(res.writes) if chunk in text]
         total = file_text.count(chunk)
@@ -86,21 +89,27 @@ def evaluate(scn, res):
 
     # ---- capture_isolated
     for tid, prog in enumerate(scn.progs):
-        ks = [(i, op) for i, op in enumerate(prog) if op[0] == "K"]
+        blocks = []   # (op index, indices of the prints whose output the block must return, in order)
+        for i, op in enumerate(prog):
+            if op[0] == "K":
+                blocks.append((i, list(range(len(op[1])))))
+            elif op[0] == "N":
+                blocks.append((i, [1]))       # the inner block returns first
+                blocks.append((i, [0, 2]))    # the outer block: what was printed before and after the inner one
         got = res.captures[tid]
-        chk(len(got) == len(ks), "capture_isolated", f"thread {tid}: {len(got)} capture results for {len(ks)} blocks")
-        for (i, op), text in zip(ks, got):
+        chk(len(got) == len(blocks), "capture_isolated", f"thread {tid}: {len(got)} capture results for {len(blocks)} blocks")
+        for (i, js), text in zip(blocks, got):
+            own = [all_chunks[(tid, i, j)][0] for j in js]
             if scn.kind == "none":
-                want = "".join(plain_text(scn, l, h) for l, h in op[1])
+                want = "".join(own)
                 chk(text == want, "capture_isolated", f"thread {tid} op {i}: captured {text!r}, its block printed {want!r}")
-            own = [all_chunks[(tid, i, j)][0] for j in range(len(op[1]))]
             pos = 0
             for c in own:
                 k = text.find(c, pos)
                 if not chk(k >= 0, "capture_isolated", f"thread {tid} op {i}: own output {c!r} missing (or out of order) in capture {text!r}"):
                     break
                 pos = k + len(c)
-            foreign = [key for key, (chunk, _) in all_chunks.items() if key[:2] != (tid, i) and chunk and chunk in text]
+            foreign = [key for key, (chunk, _) in all_chunks.items() if (key[:2] != (tid, i) or key[2] not in js) and chunk and chunk in text]
             chk(not foreign, "capture_isolated", f"thread {tid} op {i}: capture contains output of {foreign}")
 
     # ---- record_order_eq_file_order
@@ -202,6 +211,9 @@ def fixed_scenarios():
     out.append(("plain-2x2", LC.Scn("none", 30, 6, True, False, "ellipsis", [], [[P(0, 0), P(0, 1, "log")], [P(1, 0, "str", 2), P(1, 1)]]), True))
     out.append(("plain-capture", LC.Scn("none", 30, 6, True, False, "ellipsis", [],
                                         [[("K", [([mk(0, 0)], "seg"), ([mk(0, 0, 1)], "log")]), P(0, 1)], [P(1, 0), ("K", [([mk(1, 1)], "str")])]]), True))
+    out.append(("plain-nested", LC.Scn("none", 30, 6, True, False, "ellipsis", [],
+                                       [[("N", ([mk(0, 0, 0)], "seg"), ([mk(0, 0, 1)], "str"), ([mk(0, 0, 2)], "log")), P(0, 1)],
+                                        [("K", [([mk(1, 0)], "seg")]), ("N", ([mk(1, 1, 0)], "log"), ([mk(1, 1, 1)], "seg"), ([mk(1, 1, 2)], "seg"))]]), True))
     out.append(("plain-3", LC.Scn("none", 30, 6, False, False, "ellipsis", [], [[P(0, 0)], [P(1, 0, "log")], [("K", [([mk(2, 0)], "seg")]), P(2, 1)]]), True))
     # live, constant height, started and refreshed before the threads run, stopped after them
     out.append(("live-const", LC.Scn("live", 30, 8, True, False, "ellipsis", ["G1", "G2"],
@@ -239,7 +251,10 @@ def random_scenario(rng, stable=None):
         for t in range(n):
             prog = []
             for i in range(rng.randint(1, 3)):
-                if rng.random() < 0.3:
+                r = rng.random()
+                if r < 0.12:
+                    prog.append(("N",) + tuple(([mk(t, i, j)], rng.choice(hows)) for j in range(3)))
+                elif r < 0.35:
                     prog.append(("K", [([mk(t, i, j)], rng.choice(hows)) for j in range(rng.randint(0, 2))]))
                 else:
                     prog.append(P(t, i))
@@ -435,14 +450,15 @@ MANIFEST = {
     "statement), all quantified over EVERY schedule: lock_order_acyclic (live < console < record) and no_deadlock; no internal "
     "error; write_mutual_exclusion; write_own_output_only (a write call = pieces of one thread, one operation); output_exactly_once "
     "(every piece a thread produced is in exactly one place once: one write of that thread, one of its capture results, or its "
-    "buffer) + finished_thread_flushed; capture_isolated; record_order_eq_file_order; live_screen_under_schedules_partial (sessions "
+    "buffer) + finished_thread_flushed, combined in write_per_print (finished thread: every piece exactly once in its writes / "
+    "captures, and the write holding it is that thread's, one operation's); capture_isolated; record_order_eq_file_order; live_screen_under_schedules_partial (sessions "
     "whose frames all have one height: replaying the file in file order shows the printed lines then the frame of the last write, "
     "via C10's run_hooked); print_vs_taller_refresh_breaks_screen = machine-checked witness schedule for the general screen "
     "statement (finding F22).  Tie: real threads under a deterministic scheduler (harness/sched.py; yield points: every lock "
     "operation, file.write, access to _render_hooks / record buffer / _live_render._shape / renderable, and in line mode every source "
     "line of the five modules); every recorded trace of shared accesses is replayed on the model (trace inclusion) with equal "
     "observables (hook seen, erase height, shape, renderable, bytes of every write, captures, export_text); schedules: all with <= 1 "
-    "preemption, then <= 2 (quick, capped) / <= 3 (thorough, capped) of 9 fixed scenarios, plus seeded random scenarios (2-4 threads) "
+    "preemption, then <= 2 (quick: capped; thorough: complete) and <= 3 (thorough, capped) of 10 fixed scenarios, plus seeded random scenarios (2-4 threads) "
     "under random-walk / PCT schedulers and line-granularity runs; the theorems' executable statements are evaluated on the real "
     "output of every run (one write call per print, capture contents, export order, lock held at every write, no deadlock / "
     "exception, terminal replay of the file).",
